@@ -43,7 +43,8 @@ class World:
             self.side = wsutil.server(self.d, opts=opts)
         else:
             opts["serverConnectionDropTimeout"] = c["drop_to"]
-            self.side = wsutil.client(self.d, opts=opts)
+            fkw = {"proxy": {"host": "proxy.example", "port": 3128}} if c.get("proxy") else {}
+            self.side = wsutil.client(self.d, opts=opts, **fkw)
         self.t_connect = self.d.now()
         self.ep = self.side.connect()
         self.proto = self.side.proto
@@ -80,12 +81,26 @@ class World:
         if self.is_server:
             self.ep.feed(wsutil.raw_request())
         else:
-            key = dict(wsutil.split_http(self.hs_out)[1]).get("sec-websocket-key")
+            if self.c.get("proxy") and not getattr(self, "proxy_answered", False):
+                self.proxy_connect()
+            out = self.hs_out.split(b"\r\n\r\n", 1)[1] if self.c.get("proxy") else self.hs_out
+            key = dict(wsutil.split_http(out)[1]).get("sec-websocket-key")
+            if key is None:
+                raise Violation("C17|open|no-websocket-request-after-proxy-connect" if self.c.get("proxy") else "C17|open|no-websocket-request", repr(self.hs_out[:200]), self.c)
             self.ep.feed(wsutil.raw_response(key))
         self.d.settle()
         self.collect()
         self.handshook = True
         self.t_open = self.d.now()
+
+    def proxy_connect(self):
+        """the explicit HTTP proxy answers the client's CONNECT"""
+        if not self.hs_out.startswith(b"CONNECT localhost:9000 HTTP/1.1\r\n"):
+            raise Violation("C17|open|no-connect-request-to-proxy", repr(self.hs_out[:200]), self.c)
+        self.proxy_answered = True
+        self.ep.feed(b"HTTP/1.1 200 Connection established\r\n\r\n")
+        self.d.settle()
+        self.collect()
 
     def frame(self, opcode, payload=b""):
         from harness import ref6455
@@ -199,6 +214,20 @@ def sc_open(c):
         return "open/disabled"
     delay = place(c, T, "p1")
     verdict = in_time(c, T, "p1")
+    if c.get("proxy") == "silent":
+        # the proxy accepts the TCP connection and never answers the CONNECT: the opening handshake is not completed in time either
+        delay, verdict = None, False
+    if delay is not None:
+        if c.get("proxy") == "answers-then-silent":
+            # the proxy answers the CONNECT half way, the server behind it never answers the WebSocket request
+            w.advance_to(arm + delay * 0.5)
+            if not w.ep.loss_delivered:
+                w.proxy_connect()
+            delay, verdict = None, False
+        elif c.get("proxy") == "answers":
+            w.advance_to(arm + delay * 0.5)
+            if not w.ep.loss_delivered:
+                w.proxy_connect()
     if delay is not None:
         w.advance_to(arm + delay)
         if not w.ep.loss_delivered:
@@ -214,7 +243,7 @@ def sc_open(c):
         if w.side.count("open") != 1:
             raise Violation("C17|open|handshake-in-time-but-not-open", repr(w.side.log), c)
     w.finish()
-    return "open/" + c["p1"]
+    return "open/" + c["p1"] + ("/proxy-" + c["proxy"] if c.get("proxy") else "")
 
 
 def sc_close(c):
@@ -461,6 +490,9 @@ def strategy():
                 c["ping_iv"] = 0
         if sc == "open":
             c["ping_iv"] = c["ping_to"] = 0
+            if not c["server"]:
+                # a client may go through an explicit HTTP proxy: the deadline covers the CONNECT exchange as well
+                c["proxy"] = draw(st.sampled_from([None, None, "silent", "answers", "answers-then-silent"]))
         else:
             # sub-second timeouts are inside the 1s timer granularity: outside "open" scenarios keep the unrelated timers >= 2s or off
             if c["open_to"] and c["open_to"] < 2:
